@@ -32,10 +32,17 @@ func (c *fctx) lvalSet(e ast.Expr, val string) {
 		}
 		c.letPure(c.name(v), c.vtype(e, v), val)
 		// a pointer that aliases part of another object (x := y.F / y.(*T)): writes through it are writes to that object
-		if vw, ok := c.views[v]; ok && !c.inViewWriteback {
-			c.inViewWriteback = true
-			c.lvalSet(vw.src, fmt.Sprintf(vw.wrap, c.name(v)))
-			c.inViewWriteback = false
+		if vw, ok := c.views[v]; ok && !c.viewBusy[v] {
+			if c.viewBusy == nil {
+				c.viewBusy = map[*types.Var]bool{}
+			}
+			c.viewBusy[v] = true
+			if vw.custom != nil {
+				vw.custom(c.name(v))
+			} else {
+				c.lvalSet(vw.src, fmt.Sprintf(vw.wrap, c.name(v)))
+			}
+			c.viewBusy[v] = false
 		}
 	case *ast.StarExpr:
 		c.lvalSet(x.X, val)
@@ -56,6 +63,13 @@ func (c *fctx) lvalSet(e ast.Expr, val string) {
 			st := ty.Underlying().(*types.Struct)
 			fields = append(fields, c.fieldName(e, ty, st.Field(i)))
 			ty = st.Field(i).Type()
+		}
+		if bid, ok := ast.Unparen(baseExpr).(*ast.Ident); ok {
+			if bv := c.localVar(bid); bv != nil {
+				if vw, ok := c.views[bv]; ok && vw.refresh != nil && !c.viewBusy[bv] {
+					vw.refresh()
+				}
+			}
 		}
 		base := c.expr(baseExpr)
 		// { base with f1 := { base.f1 with f2 := val } }
@@ -194,8 +208,14 @@ func (c *fctx) assignCall(s *ast.AssignStmt, call *ast.CallExpr, catchErr bool) 
 	}
 	res := c.useCall(call, co, catchErr)
 	for i := 0; i < co.nres; i++ {
+		if id, ok := s.Lhs[i].(*ast.Ident); ok {
+			if v := c.localVar(id); v != nil {
+				delete(c.views, v)
+			}
+		}
 		c.lvalSet(s.Lhs[i], c.coerce(s, res[i], co.resTypes[i], c.lhsType(s.Lhs[i])))
 	}
+	c.storedLastView(s, call)
 	if co.hasErr {
 		if catchErr {
 			if c.t.errEnum {
@@ -238,6 +258,21 @@ func (c *fctx) arith(n ast.Node, op token.Token, l, r string, ty types.Type) str
 }
 
 func (c *fctx) simple(s ast.Stmt) {
+	// a view of an element of a container is re-read from the container before a statement that mentions it
+	if len(c.views) > 0 {
+		done := map[*types.Var]bool{}
+		ast.Inspect(s, func(n ast.Node) bool {
+			if id, ok := n.(*ast.Ident); ok {
+				if v, ok := c.info.Uses[id].(*types.Var); ok && !done[v] {
+					if vw, ok := c.views[v]; ok && vw.refresh != nil {
+						done[v] = true
+						vw.refresh()
+					}
+				}
+			}
+			return true
+		})
+	}
 	switch s := s.(type) {
 	case *ast.ExprStmt:
 		call, ok := s.X.(*ast.CallExpr)
@@ -586,6 +621,13 @@ func (c *fctx) faultOnly(e ast.Expr) {
 					return true // Stringer of a named basic type: reads a table
 				}
 			}
+			// a call of a translated function with one plain result: evaluated for its faults and effects
+			if tv, ok := c.info.Types[x]; ok {
+				if _, isTuple := tv.Type.(*types.Tuple); !isTuple && !isErrorType(tv.Type) {
+					c.expr(x)
+					return false
+				}
+			}
 			c.fail(x, "call inside an error message")
 		}
 		return true
@@ -595,6 +637,10 @@ func (c *fctx) faultOnly(e ast.Expr) {
 type viewInfo struct {
 	src  ast.Expr // the object the pointer points into
 	wrap string   // format of the value to store back, %s = the pointer variable
+	// a view that is not a Go lvalue (the element a callee appended to a container and returned): how to store the
+	// value back and how to re-read it from the container before a write through it
+	custom  func(name string)
+	refresh func()
 }
 
 // x := y.(*T)  or  x := y.F (F of pointer-to-struct type): x aliases y
@@ -610,6 +656,28 @@ func (c *fctx) recordView(lhs, rhs ast.Expr) {
 	if _, isSlice := v.Type().Underlying().(*types.Slice); isSlice {
 		delete(c.views, v)
 		if se, ok := rhs.(*ast.SliceExpr); ok && !se.Slice3 {
+			if fx, ok := se.X.(*ast.SelectorExpr); ok {
+				// v = p.F[lo:] where p is a pointer view made by this function (the element a callee appended and
+				// returned): the octets belong to that element alone; a write through v is a write to p.F
+				if pid, ok := ast.Unparen(fx.X).(*ast.Ident); ok {
+					if pv := c.localVar(pid); pv != nil {
+						if vw, ok := c.views[pv]; ok && vw.custom != nil {
+							lo := "0"
+							if se.Low != nil {
+								if nt, ok := c.natTerm(se.Low); ok {
+									lo = nt
+								} else {
+									lo = "(" + c.toInt(se.Low) + ").toNat"
+								}
+							}
+							c.views[v] = viewInfo{src: se.X, wrap: "(Go.splice " + c.expr(se.X) + " " + lo + " %s)"}
+							c.owned[v] = true
+							c.fi.notes = appendOnce(c.fi.notes, "a write through a slice of a field of the element a callee appended and returned is a write to that element (its octets are taken to be its own)")
+						}
+					}
+				}
+				return
+			}
 			if bid, ok := se.X.(*ast.Ident); ok {
 				if bv := c.localVar(bid); bv != nil && bv != v && c.sliceOwned(bv) {
 					lo := "0"
@@ -652,4 +720,50 @@ func (c *fctx) recordView(lhs, rhs ast.Expr) {
 			}
 		}
 	}
+}
+
+// x := container.Build…(…) where the callee ends with `*container = append(*container, p); return p`:
+// x is a view of the element at the index the callee appended it at
+func (c *fctx) storedLastView(s *ast.AssignStmt, call *ast.CallExpr) {
+	callee := c.t.staticCallee(c.info, call)
+	if callee == nil {
+		return
+	}
+	ci := c.t.fns[callee]
+	if ci == nil || !ci.retStoredLast || len(s.Lhs) == 0 {
+		return
+	}
+	id, ok := s.Lhs[0].(*ast.Ident)
+	sel, ok2 := call.Fun.(*ast.SelectorExpr)
+	if !ok || !ok2 {
+		return
+	}
+	v := c.localVar(id)
+	if v == nil {
+		return
+	}
+	recv := sel.X
+	st, ok := c.info.Types[recv].Type.Underlying().(*types.Slice)
+	if !ok {
+		return
+	}
+	ix := c.fresh("ix")
+	c.letPure(ix, "Nat", "("+c.expr(recv)+".length - 1)")
+	elemT := st.Elem()
+	name := c.name(v)
+	vt := c.vtype(s, v)
+	read := "((" + c.expr(recv) + ")[" + ix + "]?).getD " + name
+	if in := derefNamed(elemT); in != nil {
+		if _, isI := in.Underlying().(*types.Interface); isI {
+			tn := derefNamed(v.Type())
+			read = "(match (" + c.expr(recv) + ")[" + ix + "]? with | some (" + c.ltype(s, elemT) + "." + san(tn.Obj().Name()) + " w_) => w_ | _ => " + name + ")"
+		}
+	}
+	c.views[v] = viewInfo{
+		custom: func(nm string) {
+			c.lvalSet(recv, "(Go.setAt "+c.expr(recv)+" "+ix+" "+c.coerce(s, nm, v.Type(), elemT)+")")
+		},
+		refresh: func() { c.letPure(name, vt, read) },
+	}
+	c.fi.notes = appendOnce(c.fi.notes, "the pointer a builder returns is a view of the element it appended (valid while the container keeps that element at its index)")
 }
